@@ -251,7 +251,8 @@ def check(case: t.Any, ctx: Ctx) -> None:
 # ---- mapping-form exactness, global-handler placement ------------------------------------------------------
 
 def misc_cases(shard: int, nshards: int) -> t.Iterator[t.Any]:
-    for (i, c) in enumerate(['mapping-not-subclass', 'mapping-not-parameterised', 'global-not-for-int', 'global-before-sequence', 'global-after-protocol']):
+    for (i, c) in enumerate(['mapping-not-subclass', 'mapping-not-parameterised', 'global-not-for-int', 'global-before-sequence', 'global-after-protocol',
+                             'global-before-builtin-list', 'global-before-builtin-dict', 'global-before-builtin-tuple', 'global-nested-in-dataclass']):
         if i % nshards == shard:
             yield c
 
@@ -294,6 +295,22 @@ def check_misc(case: str, ctx: Ctx) -> None:
         (k, r) = outcome(lambda: pane.from_data([1], MyList))
         if k != 'ok' or r != Labeled('G', [1]):
             ctx.fail('global-placement', 'structural', f"a registered global handler for a list subclass was not used before the sequence built-in: {r!r}")
+    elif case.startswith('global-before-builtin-'):
+        ty = {'list': list, 'dict': dict, 'tuple': tuple}[case.rsplit('-', 1)[1]]
+        data = {'list': [1], 'dict': {'a': 1}, 'tuple': [1]}[case.rsplit('-', 1)[1]]
+        GLOBAL_TABLE[ty] = _label_conv('G')
+        (k, r) = outcome(lambda: pane.from_data(data, ty))
+        if k != 'ok' or r != Labeled('G', data):
+            ctx.fail('global-placement', 'builtin-container', f"a registered global handler for {ty.__name__} must be consulted before the structural built-in: from_data({data!r}, {ty.__name__}) gave {r!r}")
+        (k, r) = outcome(lambda: pane.into_data(data, ty))
+        if k != 'ok' or r != 'G-out':
+            ctx.fail('global-placement', 'builtin-container-into', f"into_data({data!r}, {ty.__name__}) with a registered global handler for {ty.__name__} gave {r!r}")
+    elif case == 'global-nested-in-dataclass':
+        GLOBAL_TABLE[list] = _label_conv('G')
+        Holder = type('GHolder', (pane.PaneBase,), {'__annotations__': {'xs': list, 'ys': t.Optional[list]}, 'ys': None})
+        (k, r) = outcome(lambda: Holder.from_data({'xs': [1], 'ys': [2]}))
+        if k != 'ok' or r.xs != Labeled('G', [1]) or r.ys != Labeled('G', [2]):
+            ctx.fail('global-placement', 'builtin-container-nested', f"a registered global handler for list is not used for list fields of a dataclass: {r!r}")
     else:
         pc = _label_conv('P')
 
